@@ -118,9 +118,67 @@ def r1_swap_parity(ctx):
         )
 
 
+def _reflexive_by_interpretation(ctx, f, which):
+    """Interpret the function on two operands that are equal but not identical and carry every hook (each hook
+    records that it was asked and answers nonsense): -> (ok, detail), or raises AnalysisError."""
+    import typing
+
+    from ..metainterp import HostFn, HostInterp, Raised, Record
+    from .more import _ORD, _ref_merge
+
+    asked = []
+
+    class Eqv:
+        def __init__(self):
+            for h in ("__type_order__", "__is_supertype__", "__is_subtype__"):
+                setattr(self, h, HostFn(lambda other, h=h: asked.append(h) or _ORD["NONE"]))
+
+        def __eq__(self, other):
+            return isinstance(other, Eqv)
+
+        __hash__ = object.__hash__
+
+    en = A.order_enum(ctx.repo)
+    order_ns = Record(merge=HostFn(lambda orders: _ref_merge(list(orders))), **_ORD)
+    funcs = {n: g.node for n, g in f.module.funcs.items() if g.parent is None and g.cls is None}
+    genv = {
+        en.name: order_ns, "NotImplemented": NotImplemented, "UnionTypes": (), "typing": typing, "Any": typing.Any, "TypeError": TypeError,
+        "get_origin": lambda t: asked.append("get_origin"), "get_args": lambda t: asked.append("get_args") or (),
+        "issubclass": lambda a, b: asked.append("issubclass") or False,
+    }
+    hi = HostInterp({}, Record(), {}, globals_env=genv, classes={}, functions=funcs)
+    hi.host_types = hi.host_types + (Eqv,) + (type(_ORD["SAME"]),)
+    try:
+        r = hi.call_function(f.node, [Eqv(), Eqv()], {}, {})
+    except Raised as e:
+        return False, f"raises {e.what} for equal operands"
+    got = getattr(r, "name", r)
+    want = "SAME" if which == "typeorder" else True
+    if got != want or (which != "typeorder" and r is not True):
+        return False, f"answers {got!r} for two equal operands" + (f" after asking {asked}" if asked else "")
+    if asked:
+        return False, f"asks {asked} before recognising equal operands"
+    return True, ""
+
+
 def r2_reflexive_first(ctx, which="typeorder"):
     f = A.typeorder_fn(ctx.repo) if which == "typeorder" else A.subclasscheck_fn(ctx.repo)
     ctx.touch(f)
+    want = "Order.SAME" if which == "typeorder" else "True"
+    try:
+        ok, detail = _reflexive_by_interpretation(ctx, f, which)
+    except AnalysisError as e:
+        ctx.note(f"{f.key}: reflexivity not interpretable ({e}); statement shape read instead")
+        ok = None
+    if ok is not None:
+        ctx.ob(
+            f"{f.key}:reflexive-first",
+            f.loc(),
+            f"{f.name} answers {want} for operands that are equal (not necessarily identical) before consulting any hook, origin or issubclass (interpreted)",
+            ok,
+            f"{f.name} {detail}: structural types (unions, intersections, literals) that are equal but built separately go through hooks and issubclass and may come out as something other than {want}",
+        )
+        return
     p1, p2 = f.params[0], f.params[1]
     def inert(s):
         """A statement that cannot decide or consult anything: docstring, assert, counter update."""
@@ -390,7 +448,7 @@ def r5_subclass_fallback(ctx):
             stubs = {"issubclass": lambda x, y, t=table: t[(x, y)], "hasattr": lambda *x: False, "get_origin": lambda *x: None, "get_args": lambda *x: ()}
             try:
                 # the whole function on two distinct plain classes (no hooks, no origin)
-                got[(a, b)] = Interp(A.order_enum(ctx.repo).name, stubs=stubs).run(f.node, {p1: "T1", p2: "T2"})
+                got[(a, b)] = Interp(A.order_enum(ctx.repo).name, stubs=stubs).run(f.node, {p1: "T1", p2: "T2", "typing.Any": "<Any>", "Any": "<Any>", "object": "<object>"})
             except AnalysisError:
                 got[(a, b)] = Interp(A.order_enum(ctx.repo).name, stubs=stubs).run(fake, {p1: "T1", p2: "T2"})
     bad = {k: v for k, v in got.items() if v != want[k]}
